@@ -6,6 +6,7 @@ import (
 	"go/constant"
 	"go/token"
 	"go/types"
+	"golang.org/x/tools/go/types/typeutil"
 	"strings"
 )
 
@@ -31,7 +32,35 @@ type privElem struct {
 }
 
 func (p *Program) privLiteral(e ast.Expr) ([]privElem, bool) {
-	cl, ok := ast.Unparen(e).(*ast.CompositeLit)
+	return p.privLiteralDepth(e, 0)
+}
+
+// privLiteralDepth also follows a call to an in-package helper whose body is
+// one `return <literal>` and a package-level variable initialised with a
+// literal (the list is then shared, which C17 decides, not this rule).
+func (p *Program) privLiteralDepth(e ast.Expr, depth int) ([]privElem, bool) {
+	e = ast.Unparen(e)
+	if depth < 3 {
+		if call, ok := e.(*ast.CallExpr); ok {
+			if fn, ok := typeutil.Callee(p.Info, call).(*types.Func); ok {
+				if fd := p.FuncDecls[fn]; fd != nil && fd.Body != nil && len(fd.Body.List) == 1 {
+					if r, ok := fd.Body.List[0].(*ast.ReturnStmt); ok && len(r.Results) >= 1 {
+						return p.privLiteralDepth(r.Results[0], depth+1)
+					}
+				}
+			}
+			return nil, false
+		}
+		if id, ok := e.(*ast.Ident); ok {
+			if v, ok := p.Info.ObjectOf(id).(*types.Var); ok && v.Parent() == p.Pkg.Types.Scope() {
+				if init := p.globalInit(v); init != nil {
+					return p.privLiteralDepth(init, depth+1)
+				}
+			}
+			return nil, false
+		}
+	}
+	cl, ok := e.(*ast.CompositeLit)
 	if !ok {
 		return nil, false
 	}
@@ -157,7 +186,17 @@ func rulesC19(c *Ctx) {
 				continue
 			}
 			if isAdmin[tn] {
-				c.Bad("C19.admin", key, r.Pos(), tn+" is an administrative statement but this path does not return a literal Admin: true list")
+				deleg := false
+				if call, ok := res.(*ast.CallExpr); ok {
+					if sel, ok := call.Fun.(*ast.SelectorExpr); ok && sel.Sel.Name == "RequiredPrivileges" {
+						deleg = true
+					}
+				}
+				if deleg {
+					c.Bad("C19.admin", key, r.Pos(), tn+" is an administrative statement but this path delegates to another node's privileges instead of returning an Admin: true list")
+				} else {
+					c.Unk("C19.admin", key, r.Pos(), tn+" is an administrative statement; this path's result is not a literal list (directly, through a one-line helper or a package-level variable)")
+				}
 			}
 			switch x := res.(type) {
 			case *ast.CallExpr:
@@ -362,7 +401,7 @@ func recursionC19(c *Ctx) {
 	// (2) SelectStatement: sources + write on target
 	if sm := p.Method("SelectStatement", "RequiredPrivileges"); sm != nil {
 		sd := p.FuncDecls[sm]
-		srcCall, write := false, false
+		srcCall, write, sawAppend := false, false, false
 		for i, s := range sd.Body.List {
 			if as, ok := s.(*ast.AssignStmt); ok && len(as.Rhs) == 1 && i == 0 {
 				if call, ok := as.Rhs[0].(*ast.CallExpr); ok {
@@ -377,6 +416,7 @@ func recursionC19(c *Ctx) {
 						if x, _, ok := appendOf(s2); ok {
 							if cl, ok := ast.Unparen(x).(*ast.CompositeLit); ok {
 								e := p.privElem(cl)
+								sawAppend = true
 								if e.privilege == "WritePrivilege" && strings.HasSuffix(e.name, ".Target.Measurement.Database") {
 									write = true
 								}
@@ -387,7 +427,24 @@ func recursionC19(c *Ctx) {
 			}
 		}
 		c.Check(srcCall, "C19.recursion", "(*SelectStatement).RequiredPrivileges: starts from the sources", sd.Pos(), "the first statement must collect the sources' privileges")
-		c.Check(write, "C19.recursion", "(*SelectStatement).RequiredPrivileges: write on the INTO target", sd.Pos(), "under Target != nil a WritePrivilege on Target.Measurement.Database must be appended")
+		mentionsTarget := false
+		ast.Inspect(sd.Body, func(n ast.Node) bool {
+			if sel, ok := n.(*ast.SelectorExpr); ok && sel.Sel.Name == "Target" {
+				mentionsTarget = true
+			}
+			return true
+		})
+		wkey := "(*SelectStatement).RequiredPrivileges: write on the INTO target"
+		switch {
+		case write:
+			c.OK("C19.recursion", wkey, sd.Pos(), "under Target != nil a WritePrivilege on Target.Measurement.Database is appended")
+		case sawAppend:
+			c.Bad("C19.recursion", wkey, sd.Pos(), "under Target != nil the appended entry is not a WritePrivilege on Target.Measurement.Database")
+		case !mentionsTarget:
+			c.Bad("C19.recursion", wkey, sd.Pos(), "the INTO target is never read: no write privilege can be required for it")
+		default:
+			c.Unk("C19.recursion", wkey, sd.Pos(), "the target is read but not in the form `if s.Target != nil { list = append(list, ExecutionPrivilege{...}) }`")
+		}
 	}
 	// the parser makes FROM mandatory for SELECT
 	if ps := p.Method("Parser", "parseSelectStatement"); ps != nil {
@@ -458,4 +515,28 @@ func recursionC19(c *Ctx) {
 		})
 		c.Check(write, "C19.recursion", "(*CreateContinuousQueryStatement).RequiredPrivileges: write on the target database", cd.Pos(), "a WritePrivilege on Source.Target.Measurement.Database must be added")
 	}
+}
+
+// globalInit returns the initialiser expression of a package-level variable.
+func (p *Program) globalInit(v *types.Var) ast.Expr {
+	for _, f := range p.Pkg.Syntax {
+		for _, d := range f.Decls {
+			gd, ok := d.(*ast.GenDecl)
+			if !ok {
+				continue
+			}
+			for _, sp := range gd.Specs {
+				vs, ok := sp.(*ast.ValueSpec)
+				if !ok {
+					continue
+				}
+				for i, n := range vs.Names {
+					if p.Info.Defs[n] == v && i < len(vs.Values) {
+						return vs.Values[i]
+					}
+				}
+			}
+		}
+	}
+	return nil
 }
